@@ -121,8 +121,13 @@ func encState(s *channel.State) []byte {
 func (e *MachineEnv) Sig(g tla.Val) wallet.Sig {
 	r := g.(tla.Rec)
 	by := r["by"].(int)
-	if by < 0 {
+	switch by {
+	case -2:
 		return bytes.Repeat([]byte{0x5a}, 64)
+	case -3:
+		return bytes.Repeat([]byte{0x5a}, 63)
+	case -4:
+		return wallet.Sig{}
 	}
 	key := fmt.Sprint(by, "|", tla.String(r["over"]))
 	st := e.State(r["over"])
@@ -326,6 +331,8 @@ func (r *MachineRun) Exec(a *tla.Action, pre tla.Rec) (res string) {
 			g = tla.Rec{"by": (i + 1) % e.N, "over": c}
 		case "twin":
 			g = tla.Rec{"by": i, "over": twin(c)}
+		case "malformed":
+			g = tla.Rec{"by": -3, "over": mNoSt}
 		default:
 			g = mGarbage
 		}
@@ -336,7 +343,7 @@ func (r *MachineRun) Exec(a *tla.Action, pre tla.Rec) (res string) {
 	case "AddSig":
 		// SigOf(j, rel) of Machine.tla, resolved against the specification's pre-state
 		j, rel := a.Args[1].(int), a.Args[2].(string)
-		var g tla.Val = mGarbage
+		var g tla.Val = tla.Rec{"by": j, "over": mNoSt}
 		if j >= 0 {
 			var st tla.Rec
 			switch rel {
@@ -417,7 +424,7 @@ func MachineInitState(n int) tla.Rec {
 	return tla.Rec{"phase": "InitActing", "staging": noTx, "current": noTx, "adopted": false}
 }
 
-func cloneSig(s wallet.Sig) wallet.Sig { return append(wallet.Sig(nil), s...) }
+func cloneSig(s wallet.Sig) wallet.Sig { return append(wallet.Sig{}, s...) }
 
 // topFrame extracts the first go-perun frame below the panic from a stack dump.
 func topFrame(stack string) string {
